@@ -43,6 +43,9 @@ class SimEvaluator:
         self.readonly = bool(mode.get("readonly", False))
         self.info = bool(mode.get("info", False))
         self.reuse = bool(mode.get("reuse", False))  # the evaluator re-uses its own output buffers
+        # the evaluator works in place on the array of variables it was handed (a unit conversion, rounding of integer
+        # controls): what it does to its argument must stay its own business
+        self.scribble_input = bool(mode.get("scribble_input", False))
         self._buffers: dict[tuple, np.ndarray] = {}
         self.calls: list[CallRecord] = []
         self.fired: dict[str, int] = {}
@@ -241,6 +244,10 @@ class SimEvaluator:
             self._memo[key] = result
         for hook in self.post_hooks:
             hook(self, rec)
+        if self.scribble_input and isinstance(variables, np.ndarray) and variables.flags.writeable:
+            self._fire("input_array_overwritten")
+            variables *= 0.5
+            variables += 7.0
         return result
 
     # ------------------------------------------------------------------
